@@ -86,7 +86,7 @@ def run_case(chk, rng, case, stats, coq_cases, metas, compiler):
     if res.exception and res.exception != "SystemExit":
         chk.oracle_fail("an exception escaped cli.main(): %s" % res.exception, c)
         return
-    if dt > 20:
+    if dt > 120:
         chk.oracle_fail("the run took %.1f s" % dt, c)
     if res.status == 126 or res.status not in (0, 1, 2, 3, 4):
         chk.oracle_fail("exit status %r (unknown error): %s" % (res.status, res.stderr.strip()[-200:]), c, finding=known_finding(case, res))
